@@ -1,4 +1,5 @@
 import PyTrie.Model.Smt
+import PyTrie.Model.SmtInt
 import PyTrie.Model.Keccak
 /-! Line-protocol front end for the sparse Merkle tree and its streamed proof (`smt.*`). -/
 namespace PyTrie.SmtDrv
@@ -7,6 +8,7 @@ open PyTrie.Smt PyTrie.Bin
 structure St where
   trees : Array Tree := #[]
   proofs : Array Proof := #[]
+  pkeys : Array Bytes := #[]        -- the tracked keys as byte strings (for the integer arithmetic of `update`)
 
 instance : Inhabited St := ⟨{}⟩
 
@@ -41,7 +43,7 @@ def step (st : St) (cmd : String) (args : List String) : St × String :=
       match st.trees[i]? with
       | none => bad
       | some t =>
-        match Smt.set keccak t (toBits k) v with
+        match SmtInt.setI keccak t k v with
         | some (t', ups) => ({ st with trees := st.trees.set! i t' }, hashes ups)
         | none => (st, "exn KeyError")
     | _, _, _ => bad
@@ -51,17 +53,23 @@ def step (st : St) (cmd : String) (args : List String) : St × String :=
       match st.trees[i]? with
       | none => bad
       | some t =>
-        match Smt.delete keccak t (toBits k) with
+        match SmtInt.setI keccak t k t.default with
         | some (t', ups) => ({ st with trees := st.trees.set! i t' }, hashes ups)
         | none => (st, "exn KeyError")
     | _, _ => bad
   | "get", [i, k] =>
     match tree i, ofHex k with
-    | some t, some k => (st, match Smt.get t (toBits k) with | .ok v => s!"v {toHex v}" | .error _ => "exn KeyError")
+    | some t, some k =>
+      (st, match SmtInt.getI t.db t.root t.depth k with
+        | some (v, _) => if v = [] then "exn KeyError" else s!"v {toHex v}"
+        | none => "exn KeyError")
     | _, _ => bad
   | "branch", [i, k] =>
     match tree i, ofHex k with
-    | some t, some k => (st, match Smt.branch t (toBits k) with | .ok b => hashes b | .error _ => "exn KeyError")
+    | some t, some k =>
+      (st, match SmtInt.getI t.db t.root t.depth k with
+        | some (v, br) => if v = [] then "exn KeyError" else hashes br
+        | none => "exn KeyError")
     | _, _ => bad
   | "exists", [i, k] =>
     match tree i, ofHex k with
@@ -76,13 +84,14 @@ def step (st : St) (cmd : String) (args : List String) : St × String :=
   | "calcroot", [k, v, br] =>
     match ofHex k, ofHex v, parseHashes br with
     | some k, some v, some br =>
-      if br.length ≠ 8 * k.length then (st, "exn ValidationError") else (st, toHex (calcRoot keccak (toBits k) v br))
+      if br.length ≠ 8 * k.length then (st, "exn ValidationError") else (st, toHex (SmtInt.calcRootI keccak k v br))
     | _, _, _ => bad
   | "proof", [k, v, br] =>
     match ofHex k, ofHex v, parseHashes br with
     | some k, some v, some br =>
       if br.length ≠ 8 * k.length then (st, "exn ValidationError")
-      else ({ st with proofs := st.proofs.push { key := toBits k, value := v, branch := br } }, toString st.proofs.size)
+      else ({ st with proofs := st.proofs.push { key := toBits k, value := v, branch := br },
+                       pkeys := st.pkeys.push k }, toString st.proofs.size)
     | _, _, _ => bad
   | "pupdate", [i, k, v, ups] =>
     match i.toNat?, ofHex k, ofHex v, parseHashes ups with
@@ -91,13 +100,15 @@ def step (st : St) (cmd : String) (args : List String) : St × String :=
       | none => bad
       | some p =>
         if 8 * k.length ≠ p.key.length then (st, "exn ValidationError")
-        else match p.update (toBits k) v ups with
+        else match SmtInt.updateI (st.pkeys[i]!) p k v ups with
           | .ok p' => ({ st with proofs := st.proofs.set! i p' }, "ok")
           | .error _ => (st, "exn ValidationError")
     | _, _, _, _ => bad
   | "pshow", [i] =>
     match i.toNat?.bind (fun i => st.proofs[i]?) with
-    | some p => (st, s!"{toHex p.value};{hashes p.branch};{toHex (p.rootHash keccak)}")
+    | some p =>
+      let k0 := st.pkeys[i.toNat?.getD 0]!
+      (st, s!"{toHex p.value};{hashes p.branch};{toHex (SmtInt.calcRootI keccak k0 p.value p.branch)}")
     | none => bad
   | _, _ => bad
 
